@@ -1073,7 +1073,7 @@ Section Vec.
     nctor g = ndtor g /\ Forall (fun b => b_live b = false) (blocks g) /\ Forall (eq None) s.
   Proof.
     intros I Hn.
-    assert (T : total sp = 0). { induction Hn as [|o r Ho _ IH]; simpl; [reflexivity|]. subst o. simpl. exact IH. }
+    assert (T : total sp = 0). { clear I. induction Hn as [|o r Ho _ IH]; simpl; [reflexivity|]. subst o. simpl. exact IH. }
     assert (SN : Forall (eq None) s).
     { pose proof (inv_rep _ _ _ I) as F. clear - F Hn. induction F as [|x y s sp Hxy F IH]; constructor.
       - inversion Hn; subst. destruct x; [destruct Hxy|reflexivity].
